@@ -294,3 +294,29 @@ Example C02_refuted_memeval_alias_clone :
   run_mem cfg_alias_clone None (fzero false) 50 ex_selfassign = None /\
   run_mem cfg_repaired None (fzero false) 50 ex_selfassign = Some ([VStr (ex_aa ++ ex_bb)], Done).
 Proof. vm_compute. split; reflexivity. Qed.
+
+(* ================================================================== *)
+(* Strengthening round — boxed host records (process builders and results).  They are not values of this
+   machine; storage-wise a record is a persistent box holding strings, and Value::promote decides by the
+   BOX's address whether anything has to be copied.  That is sound exactly when the contents obey the
+   invariant's `nothing stored points into the frame` (inv_nf): *)
+Theorem C02_nf_survives_any_reset : forall h v x m, erase h v = Some x -> vall nf v ->
+  erase (frame_reset h m) v = Some x.
+Proof. exact nf_survives_reset_lemma. Qed.
+Print Assumptions C02_nf_survives_any_reset.
+
+(* and false otherwise: a persistent record one of whose strings was built in the frame during the running
+   iteration (the state left by a mutator that keeps the frame copy of a computed string: seeded changes
+   C02-c2, C15-c1, C16-c1) violates the invariant, reads back correctly until the iteration ends, and is dead
+   after the iteration's frame reset.  The source-side obligation is src_host_discipline (C02_source_discipline):
+   every string a builder stores and every captured stream is built in the persistent arena. *)
+Example C02_refuted_frame_string_in_persistent_record :
+  ~ MemInv st_frame_string_in_record /\
+  observe_from_ok st_frame_string_in_record [ORead 0; OShout] = true /\
+  run cfg_repaired st_frame_string_in_record [OLoopIterEnd; ORead 0; OShout] = MFault.
+Proof.
+  split.
+  - intros H. pose proof (inv_nf _ H) as Hnf. inversion Hnf as [|? ? Hv _]; subst.
+    inversion Hv as [|? ? _ Hrest]; subst. inversion Hrest as [|? ? Hrow _]; subst. apply Hrow. reflexivity.
+  - split; vm_compute; reflexivity.
+Qed.
